@@ -1,6 +1,6 @@
 (* Properties_C05.v — the theorems that decide property C05 on the model, each stated in full and closed by
    `exact <lemma>`; the lemmas live in the Proofs_*.v files.  Nothing else belongs in this file. *)
-From Theo Require Import Base VMModel VMSpec VMStatements Proofs_VM_mem Proofs_VM_dbg.
+From Theo Require Import Base VMModel VMSpec VMStatements Proofs_VM_mem Proofs_VM_dbg CompiledStatements Regex Tokens Errors Lexer Scan MacroExtract Grammar LR MacroApply Parser VMCheck VMCheckStatements GenModel Compile Gen_Lexer Gen_Consts CompileStatements Proofs_Compiled.
 Local Open Scope Z_scope.
 
 Theorem C05_exec_core :
@@ -27,3 +27,13 @@ Theorem C05_same_result :
       views s0 = views s /\ data s0 = data s /\ stack s0 = stack s /\ ip s0 = ip s.
 Proof. exact C05_same_result_proof. Qed.
 Print Assumptions C05_same_result.
+
+Theorem C05_compiled :
+  forall files main c h fuel s,
+    compile files main = Ok c -> run_hist fuel h (init (cr_prog c)) = Ok s ->
+    (exists n, vm_run n (init (cr_prog c)) = Ok (strip s)) /\
+    (isDone s = Ok true ->
+       forall m s0, vm_run m (init (cr_prog c)) = Ok s0 -> isDone s0 = Ok true ->
+         views s0 = views s /\ data s0 = data s /\ stack s0 = stack s /\ ip s0 = ip s).
+Proof. exact C05_compiled_proof. Qed.
+Print Assumptions C05_compiled.
